@@ -115,7 +115,8 @@ def check_c15(case, stats=None):
                 if c.op == "ctx_quit":
                     quit_refused.append((r.i, c.args[0]))
             # --- names: a lookup by name finds exactly the live module registered under it
-            if c.op == "lookup" and known and len(sl) > 1 and not calls and not cbs and c.fields["_ctx"].get("ctx") == "1":
+            quiet = not any(oc.op in ("dereg", "reg", "ctx_deregister", "stop", "start") for oc in calls) and not any((F.flags.get(b.slot, 0) & MOD_DENY_CTX) or b.kind != "evt" for b in cbs)
+            if c.op == "lookup" and known and len(sl) > 1 and quiet and c.fields["_ctx"].get("ctx") == "1":
                 name = F.name.get(sl[1])
                 exp = c.fields["_live"].get(name, -1)
                 if exp != -1 and c.fields["_st"].get(exp) in (None, "Z"):
